@@ -11,7 +11,7 @@ import (
 	"encoding/hex"
 	"encoding/json"
 	"fmt"
-	"io"
+	_ "io"
 	"os"
 	"path/filepath"
 	"runtime/debug"
@@ -251,7 +251,7 @@ func (c *Chain) open() {
 		}
 		logger = c.Log
 	}
-	c.App = palomaapp.New(logger, c.db, io.Discard, true,
+	c.App = palomaapp.New(logger, c.db, nil, true, // nil trace writer: a non-nil one (even io.Discard) turns store tracing on
 		simtestutil.AppOptionsMap{flags.FlagHome: c.Home, server.FlagInvCheckPeriod: 0},
 		baseapp.SetChainID(c.Cfg.ChainID))
 }
@@ -499,6 +499,43 @@ func (c *Chain) SignTx(signers []*Account, msgs []sdk.Msg, o TxOpts) ([]byte, er
 
 // Queue adds a raw tx to the next block.
 func (c *Chain) Queue(tx []byte) { c.pending = append(c.pending, tx) }
+
+// PendingCount is the number of txs queued for the next block (= index the next queued tx gets
+// in BlockResult.Txs).
+func (c *Chain) PendingCount() int { return len(c.pending) }
+
+// CoinFlow sums, over the events of one tx, the coins of denom spent by / received by addr
+// (bank coin_spent / coin_received events).
+func CoinFlow(evs []abci.Event, addr, denom string) (spent, received sdkmath.Int) {
+	spent, received = sdkmath.ZeroInt(), sdkmath.ZeroInt()
+	for _, e := range evs {
+		if e.Type != "coin_spent" && e.Type != "coin_received" {
+			continue
+		}
+		who, amt := "", ""
+		for _, a := range e.Attributes {
+			switch a.Key {
+			case "spender", "receiver":
+				who = a.Value
+			case "amount":
+				amt = a.Value
+			}
+		}
+		if who != addr {
+			continue
+		}
+		coins, err := sdk.ParseCoinsNormalized(amt)
+		if err != nil {
+			continue
+		}
+		if e.Type == "coin_spent" {
+			spent = spent.Add(coins.AmountOf(denom))
+		} else {
+			received = received.Add(coins.AmountOf(denom))
+		}
+	}
+	return
+}
 
 type TxResult struct {
 	Code   uint32
